@@ -40,10 +40,24 @@ FAMILIES = {
     "var_s": fam(Ctors=["var", "map"], Fs1=["id"], Ops=["set", "update", "modify", "replace", "replace_with"],
                  MaxNodes=3, MaxObs=2, MaxActs=9, MaxRounds=3),
     # user functions that panic at their k-th run: crash-point enumeration (C13)
-    "panic_s": fam(Ctors=["var", "map", "map2"], Fs1=["id"], Effs=["panic"], MaxNodes=3, MaxObs=2, MaxActs=9, MaxRounds=3),
+    "panic_s": fam(Ctors=["var", "map", "map2"], Fs1=["id"], Effs=["panic"], MaxNodes=3, MaxObs=2, MaxActs=8, MaxRounds=3),
     # user functions that write vars / read observers while stabilising (C08, C07)
     "eff_s": fam(Ctors=["var", "map"], Fs1=["id"], Effs=["set", "read"], Ops=["set", "update"],
                  MaxVars=2, MaxNodes=3, MaxObs=1, MaxActs=7, MaxRounds=3),
+    # ownership: every order of dropping handles / vars / observers around stabilises (C12)
+    "own_s": fam(Ctors=["var", "map", "map2", "drop"], Fs1=["id"], MaxVars=2, MaxNodes=3, MaxObs=1, MaxActs=8, MaxRounds=3),
+    "ownbind_s": fam(Ctors=["var", "bind", "drop"], RecipeKinds=["map", "pick"], MaxVars=2, MaxNodes=4, MaxObs=1, MaxActs=9, MaxRounds=3, MaxH=16),
+    # weak_memoize_fn called from bind closures (C20)
+    "memo_s": fam(Ctors=["var", "memo", "bind", "drop"], RecipeKinds=["memo"], Fs2=["add"], MaxVars=2, MaxNodes=4,
+                  MaxObs=1, MaxActs=8, MaxRounds=3, MaxH=16),
+    # height limit: chains around the limit, set_max_height_allowed up and down (C19)
+    "height_s": fam(Ctors=["var", "map", "map2", "setmaxh", "limits"], Fs1=["id"], MaxNodes=3, MaxObs=2, MaxActs=8,
+                    MaxRounds=2, MaxH=2, invariants=["NoPanic", "InvObsCorrect", "InvAudit", "InvHeightExact"]),
+    # cycles closed through a bind, foreign-state rhs, nested stabilise (C19)
+    "cycle_s": fam(Ctors=["var", "nvar", "map", "refbind", "cyclic", "limits"], Fs1=["id"], MaxVars=2, MaxNodes=5, MaxObs=1,
+                   MaxActs=9, MaxRounds=2, MaxH=16),
+    "misuse_s": fam(Ctors=["var", "map", "bind"], RecipeKinds=["foreign", "const"], Fs1=["id"], Effs=["stabilise"],
+                    MaxNodes=4, MaxObs=1, MaxActs=8, MaxRounds=2, MaxH=16),
     # expert constructions
     "xjoin_s": fam(Ctors=["var", "nvar", "xjoin"], MaxVars=3, MaxNodes=5, MaxObs=1, MaxActs=9, MaxRounds=3, MaxH=16),
     "xsum_s": fam(K=3, Ctors=["var", "xsum"], MaxVars=2, MaxNodes=4, MaxObs=1, MaxActs=8, MaxRounds=3, MaxH=16),
